@@ -247,16 +247,37 @@ func runStreamWorld(rc *RunCtx) *Outcome {
 	if kind == endError {
 		endErr = newInjected("read at offset " + strconv.Itoa(end))
 	}
+	// a buffer configuration that is large enough for every event here must not change anything
+	var cfg *sse.ReadConfig
+	var connBuf []byte
+	connMax := 0
+	bufMode := ch.Weighted([]int{6, 1, 1, 1}, "buffer configuration")
+	switch {
+	case bufMode == 0:
+	case entry == "Read":
+		cfg = &sse.ReadConfig{MaxEventSize: 1 << 17}
+	case bufMode == 1:
+		connMax = 1 << 17
+	case bufMode == 2: // "scan in this buffer only": bufio.Scanner.Buffer with a maximum not above cap(buf)
+		connBuf = make([]byte, 0, 1<<17)
+		connMax = []int{0, -1, 4096}[ch.Intn(3, "maximum below the buffer's capacity")]
+	case bufMode == 3:
+		connBuf = make([]byte, 0, 16)
+		connMax = 1 << 17
+	}
+	if bufMode != 0 {
+		o.probe("generous buffer configured")
+	}
 	o.logf("stream %q", stream)
-	o.logf("end=%v kind=%d entry=%s", end, kind, entry)
+	o.logf("end=%v kind=%d entry=%s bufMode=%d max=%d", end, kind, entry, bufMode, connMax)
 
 	run := func(plan []int, seg string, stopAfter int) {
 		r := &simReader{data: data, end: end, endErr: endErr, withData: withData, plan: plan, ch: ch}
 		var obs streamObs
 		if entry == "Read" {
-			obs = runRead(r, nil, stopAfter)
+			obs = runRead(r, cfg, stopAfter)
 		} else {
-			obs, _ = runConn(r, nil, 0)
+			obs, _ = runConn(r, connBuf, connMax)
 		}
 		if seg == "" {
 			seg = fmt.Sprint(r.cuts)
